@@ -1521,6 +1521,66 @@ theorem race_atomic_informer_add (d n : Nat) (lp : Bool) (q : QI) (hp : q.parent
     simp [delCheck, hp ▸ hk] at hd'
   · simpa [otherRun, applyEv] using hs
 
+/-- a delete of `n` decided after an admitted update that hangs (or keeps) a quota under `n` is rejected. -/
+theorem delete_after_reparent_rejected (d : Nat) (s : Topo) (n : Nat) (lp : Bool) (q : QI) (sw hp : Bool)
+    (hW : WF d s) (h : (validUpdate d s q sw hp).2 = true) (hpar : q.parent = n) :
+    (validDelete (validUpdate d s q sw hp).1 n lp).2 = false := by
+  have hW' : WF d (validUpdate d s q sw hp).1 := accept_preserves_WF d s (.upd q sw hp) hW trivial h
+  have hex : ∃ c ∈ (validUpdate d s q sw hp).1.info, c.parent = n := by
+    cases hf : find s.info q.name with
+    | none =>
+      exfalso
+      unfold validUpdate at h
+      simp only [hf] at h
+      repeat' split at h
+      all_goals simp_all
+    | some o =>
+      by_cases h0 : sameFields o q = true
+      · have hs : (validUpdate d s q sw hp).1 = s := by unfold validUpdate; simp [hf, h0]
+        have hop : (o.parent == q.parent) = true := by
+          simp only [sameFields, Bool.and_eq_true] at h0
+          exact h0.1.1.1.1.1.1.1.1.1.1
+        rw [hs]
+        exact ⟨o, (find_some hf).1, by rw [← hpar]; simpa using hop⟩
+      · by_cases c1 : (decide (q.name = 0) || decide (q.name = 1)) = true
+        · simp [validUpdate, hf, h0, c1] at h
+        by_cases c2 : nsFree s q = true
+        · by_cases c3 : selfOK d q sw = true
+          · by_cases c4 : topoCheck d s (some o) q hp = true
+            · have hi : (validUpdate d s q sw hp).1.info = replace s.info q := by
+                simp [validUpdate, hf, h0, c1, c2, c3, c4]
+              exact ⟨q, by rw [hi]; exact mem_replace_self (find_some hf).1 (find_some hf).2, hpar⟩
+            · simp [validUpdate, hf, h0, c1, c2, c3, c4] at h
+          · simp [validUpdate, hf, h0, c1, c2, c3] at h
+        · simp [validUpdate, hf, h0, c1, c2] at h
+  obtain ⟨c, hc, hcp⟩ := hex
+  have hkid := (hW'.forest.kidsOK n c.name).mpr ⟨c, hc, rfl, hcp⟩
+  have hk : hasKids (validUpdate d s q sw hp).1 n = true := by
+    unfold hasKids
+    exact List.any_eq_true.mpr ⟨(n, c.name), hkid, by simp⟩
+  rw [validDelete_sections]
+  simp [delCheck, hk]
+
+/-- the re-parenting variant of the race: under the code's lock shape the delete of `n` and a concurrent update that
+    hangs a quota under `n` are never both admitted. -/
+theorem race_atomic_not_both_reparent (d n : Nat) (lp : Bool) (r : Raw) (le : Bool) (pods : List Pod)
+    (hp : (decodeQI r).parent = n) (s0 : Topo) (hW : WF d s0) (sched : List Bool) :
+    let c := raceExec d .atomic n lp (.req (.upd r le pods)) { s := s0 } sched
+    c.pc = 4 → ¬ (c.dres = some true ∧ c.ores = some true) := by
+  intro c hpc hboth
+  have hsome : c.ores.isSome = true := by rw [hboth.2]; rfl
+  rcases race_atomic_linearizable d n lp (.req (.upd r le pods)) s0 sched hpc hsome with ⟨_, hd, ho⟩ | ⟨_, hd, ho⟩
+  · rw [hboth.2] at ho
+    rw [hboth.1] at hd
+    simp only [otherRun, stepRaw, decodeOp, step, Option.some.injEq] at ho hd
+    rw [delete_after_reparent_rejected d s0 n lp _ _ _ hW ho.symm hp] at hd
+    cases hd
+  · rw [hboth.2] at ho
+    rw [hboth.1] at hd
+    simp only [otherRun, stepRaw, decodeOp, step, Option.some.injEq] at ho hd
+    rw [reparent_after_delete_rejected d s0 n lp _ _ _ hW hd.symm hp] at ho
+    cases ho
+
 /-! ### 19. the unchanged-fields shortcut sees zero-valued entries (round 4; Ties: tie_unchanged_fields_copy) -/
 
 /-- the shortcut applies only when the spec maps are IDENTICAL — key sets included. -/
